@@ -1,2 +1,450 @@
-//! C18 workload (under construction).
-fn main() {}
+//! C18 — floating-point conversions. Uint -> f64/f32: neighbour rule, exactness
+//! when representable, infinity bound, monotonicity. f64/f32 -> Uint: exact
+//! floor(f + 1/2), classification of NaN / negative / too large, saturation.
+//! Never run under Miri (Miri perturbs exp2/log2 by random ULPs).
+
+use num_bigint::BigUint;
+use num_traits::{One, Zero};
+use ruint::{ToUintError, Uint};
+use vmon::{au, big, gen, rng::Rng, uint, Arg, Mon};
+
+vmon::widths!(exec; 0, 1, 7, 8, 24, 25, 31, 32, 52, 53, 54, 63, 64, 65, 127, 128, 129, 192, 255, 256, 257,
+    512, 1023, 1024, 1025, 1088, 2048);
+
+/// Exact value of a finite non-negative f64 as (mantissa, exponent): m * 2^e.
+fn decompose(f: f64) -> (u64, i32) {
+    let bits = f.to_bits();
+    let be = ((bits >> 52) & 0x7ff) as i32;
+    let frac = bits & 0x000f_ffff_ffff_ffff;
+    if be == 0 {
+        (frac, -1074)
+    } else {
+        (frac | (1 << 52), be - 1075)
+    }
+}
+
+/// floor(f + 1/2) exactly, for finite f >= 0.
+fn round_half_up(f: f64) -> BigUint {
+    let (mant, e) = decompose(f);
+    if e >= 0 {
+        BigUint::from(mant) << (e as usize)
+    } else {
+        let s = (-e) as usize;
+        if s > 70 {
+            return BigUint::zero(); // f < 2^53 * 2^-71 < 1/2
+        }
+        // (m * 2 + 2^s) / 2^(s+1)
+        ((BigUint::from(mant) << 1usize) + (BigUint::one() << s)) >> (s + 1)
+    }
+}
+
+/// Exact value of a finite f64 >= 0 as a rational m * 2^e compared with V.
+fn cmp_float_to_int(f: f64, v: &BigUint) -> std::cmp::Ordering {
+    let (mant, e) = decompose(f);
+    if e >= 0 {
+        (BigUint::from(mant) << (e as usize)).cmp(v)
+    } else {
+        BigUint::from(mant).cmp(&(v << ((-e) as usize)))
+    }
+}
+
+/// Judge a conversion of the integer V to a float `got` (given as f64, `mant_bits` = 53 or 24).
+fn judge_to_float(m: &mut Mon, kind: &str, v: &BigUint, got: f64, is_f32: bool) {
+    use std::cmp::Ordering::*;
+    if got.is_nan() || got < 0.0 || (got == 0.0 && got.is_sign_negative()) {
+        m.fail(&format!("{kind}.class"), "a non-negative float", &format!("{got:?}"));
+        return;
+    }
+    let (inf_bound, prev_of, next_of): (BigUint, fn(f64) -> f64, fn(f64) -> f64) = if is_f32 {
+        (
+            big::p2(128) - big::p2(103),
+            |x| f64::from(f32::from_bits((x as f32).to_bits().wrapping_sub(1))),
+            |x| f64::from(f32::from_bits((x as f32).to_bits() + 1)),
+        )
+    } else {
+        (
+            big::p2(1024) - big::p2(970),
+            |x| f64::from_bits(x.to_bits().wrapping_sub(1)),
+            |x| f64::from_bits(x.to_bits() + 1),
+        )
+    };
+    if got.is_infinite() {
+        m.check(*v >= inf_bound, &format!("{kind}.infinity"), || "finite float (value below the rounding range of MAX)".into(), || "inf".into());
+        return;
+    }
+    match cmp_float_to_int(got, v) {
+        Equal => {}
+        Less => {
+            // got < V: must be the largest float <= V, i.e. next(got) > V
+            let nx = next_of(got);
+            let ok = nx.is_infinite() || cmp_float_to_int(nx, v) == Greater;
+            m.check(ok, &format!("{kind}.neighbour"), || format!("one of the two floats around {}", big::bhex(v)), || format!("{got:e} (next float up is still <= value)"));
+        }
+        Greater => {
+            let ok = got > 0.0 && cmp_float_to_int(prev_of(got), v) == Less;
+            m.check(ok, &format!("{kind}.neighbour"), || format!("one of the two floats around {}", big::bhex(v)), || format!("{got:e} (next float down is still >= value)"));
+        }
+    }
+}
+
+#[derive(Debug, PartialEq, Eq, Clone)]
+enum Class {
+    Value(Vec<u64>),
+    TooLarge,
+    Negative,
+    NaN,
+}
+
+fn classify(f: f64, bits: usize) -> Class {
+    if f.is_nan() {
+        return Class::NaN;
+    }
+    if f < 0.0 {
+        return Class::Negative;
+    }
+    if f.is_infinite() {
+        return Class::TooLarge;
+    }
+    let r = round_half_up(f);
+    if big::fits(&r, bits) {
+        Class::Value(big::limbs(&r, gen::nlimbs(bits)))
+    } else {
+        Class::TooLarge
+    }
+}
+
+fn judge_from_float<const B: usize, const L: usize>(m: &mut Mon, tag: &str, want: &Class, got: Result<Uint<B, L>, ToUintError<Uint<B, L>>>) {
+    match (&got, want) {
+        (Ok(v), Class::Value(e)) => {
+            m.eq_uint(&format!("{tag}.value"), v, e);
+        }
+        (Err(ToUintError::ValueTooLarge(b, w)), Class::TooLarge) => {
+            m.eq(&format!("{tag}.err-bits"), b, &B);
+            m.canonical(w);
+        }
+        (Err(ToUintError::ValueNegative(b, w)), Class::Negative) => {
+            m.eq(&format!("{tag}.err-bits"), b, &B);
+            m.canonical(w);
+        }
+        (Err(ToUintError::NotANumber(b)), Class::NaN) => {
+            m.eq(&format!("{tag}.err-bits"), b, &B);
+        }
+        _ => {
+            if let Ok(v) = &got {
+                m.canonical(v);
+            }
+            m.fail(&format!("{tag}.class"), &format!("{want:?}").chars().take(200).collect::<String>(), &format!("{got:?}").chars().take(200).collect::<String>());
+        }
+    }
+}
+
+fn exec<const B: usize, const L: usize>(m: &mut Mon, op: &str, a: &[Arg]) {
+    match op {
+        "to_float" => {
+            let x: Uint<B, L> = uint(a[0].u());
+            let bv = big::big(a[0].u());
+            m.nontrivial(bv.bits() > 53);
+            if let Some(f) = m.must_in("f64::from", || f64::from(x)) {
+                m.obs(|| format!("f64={f:e}"));
+                judge_to_float(m, "f64", &bv, f, false);
+                if let Some(g) = m.must_in("f64::from(&)", || f64::from(&x)) {
+                    m.eq("f64.ref", &g.to_bits(), &f.to_bits());
+                }
+            }
+            if let Some(f) = m.must_in("f32::from", || f32::from(x)) {
+                judge_to_float(m, "f32", &bv, f64::from(f), true);
+                if let Some(g) = m.must_in("f32::from(&)", || f32::from(&x)) {
+                    m.eq("f32.ref", &g.to_bits(), &f.to_bits());
+                }
+            }
+        }
+        "to_float_mono" => {
+            // a[0] <= a[1]
+            let (x, y): (Uint<B, L>, Uint<B, L>) = (uint(a[0].u()), uint(a[1].u()));
+            m.nontrivial(big::big(a[1].u()).bits() > 53);
+            if let (Some(f), Some(g)) = (m.must_in("f64::from", || f64::from(x)), m.must_in("f64::from", || f64::from(y))) {
+                m.check(f <= g, "f64.monotone", || "f(a) <= f(b) for a <= b".into(), || format!("{f:e} > {g:e}"));
+            }
+            if let (Some(f), Some(g)) = (m.must_in("f32::from", || f32::from(x)), m.must_in("f32::from", || f32::from(y))) {
+                m.check(f <= g, "f32.monotone", || "f(a) <= f(b) for a <= b".into(), || format!("{f:e} > {g:e}"));
+            }
+        }
+        "from_f64" | "from_f32" => {
+            let f: f64 = if op == "from_f64" { f64::from_bits(a[0].n() as u64) } else { f64::from(f32::from_bits(a[0].n() as u32)) };
+            let want = classify(f, B);
+            m.nontrivial(f.is_finite() && f != 0.0);
+            m.obs(|| format!("float={f:e} expected={}", format!("{want:?}").chars().take(120).collect::<String>()));
+            let tag = if op == "from_f64" { "f64" } else { "f32" };
+            macro_rules! run {
+                ($v:expr) => {{
+                    let fv = $v;
+                    if let Some(r) = m.must_in("try_from(float)", || Uint::<B, L>::try_from(fv)) {
+                        judge_from_float(m, tag, &want, r);
+                    }
+                    match &want {
+                        Class::Value(e) => {
+                            if let Some(v) = m.must_in("from(float)", || Uint::<B, L>::from(fv)) {
+                                m.eq_uint(&format!("{tag}.from"), &v, e);
+                            }
+                        }
+                        _ => {
+                            m.must_panic(|| Uint::<B, L>::from(fv), "float not representable");
+                        }
+                    }
+                    if let Some(v) = m.must_in("saturating_from(float)", || Uint::<B, L>::saturating_from(fv)) {
+                        let e = match &want {
+                            Class::Value(e) => e.clone(),
+                            Class::TooLarge => gen::max(B),
+                            _ => gen::zero(B),
+                        };
+                        m.eq_uint(&format!("{tag}.saturating_from"), &v, &e);
+                    }
+                    if let Some(v) = m.must_in("wrapping_from(float)", || Uint::<B, L>::wrapping_from(fv)) {
+                        // the wrapped value for floats is unspecified by the property; only canonical form
+                        if let Class::Value(e) = &want {
+                            m.eq_uint(&format!("{tag}.wrapping_from"), &v, e);
+                        } else {
+                            m.canonical(&v);
+                        }
+                    }
+                }};
+            }
+            if op == "from_f64" {
+                run!(f);
+            } else {
+                run!(f32::from_bits(a[0].n() as u32));
+            }
+        }
+        _ => panic!("harness: unknown op {op}"),
+    }
+}
+
+// -------------------------------------------------------------------------- exhaustive f32 sweep (thorough tier)
+
+/// floor(f + 1/2) for a finite non-negative f32, in u128 (f32 values are < 2^128).
+fn round_f32(f: f32) -> u128 {
+    let bits = f.to_bits();
+    let be = ((bits >> 23) & 0xff) as i32;
+    let frac = u128::from(bits & 0x7f_ffff);
+    let (mant, e) = if be == 0 { (frac, -149) } else { (frac | (1 << 23), be - 150) };
+    if e >= 0 {
+        mant << e
+    } else {
+        let s = (-e) as u32;
+        if s > 40 {
+            0
+        } else {
+            ((mant << 1) + (1u128 << s)) >> (s + 1)
+        }
+    }
+}
+
+fn sweep_f32<const B: usize, const L: usize>(m: &mut Mon, shard: u64, nshards: u64) {
+    let total: u64 = 1 << 32;
+    let lo = total * shard / nshards;
+    let hi = total * (shard + 1) / nshards;
+    let lim: Option<u128> = if B >= 128 { None } else { Some(1u128 << B) };
+    let mut n = 0u64;
+    let mut nontrivial = 0u64;
+    for pattern in lo..hi {
+        let f = f32::from_bits(pattern as u32);
+        if f.is_finite() && f != 0.0 {
+            nontrivial += 1;
+        }
+        let got = Uint::<B, L>::try_from(f);
+        let ok = if f.is_nan() {
+            matches!(got, Err(ToUintError::NotANumber(_)))
+        } else if f < 0.0 {
+            matches!(got, Err(ToUintError::ValueNegative(..)))
+        } else if f.is_infinite() {
+            matches!(got, Err(ToUintError::ValueTooLarge(..)))
+        } else {
+            let r = round_f32(f);
+            if lim.map_or(false, |l| r >= l) {
+                matches!(got, Err(ToUintError::ValueTooLarge(..)))
+            } else {
+                match got {
+                    Ok(v) => {
+                        let l = v.as_limbs();
+                        let lo64 = l.first().copied().unwrap_or(0);
+                        let hi64 = l.get(1).copied().unwrap_or(0);
+                        let rest_zero = l.iter().skip(2).all(|&x| x == 0);
+                        rest_zero && (u128::from(hi64) << 64 | u128::from(lo64)) == r
+                    }
+                    Err(_) => false,
+                }
+            }
+        };
+        n += 1;
+        if !ok {
+            // route through the monitored path to get a proper record
+            m.case_always("from_f32", B, vec![Arg::N(u128::from(pattern))]);
+        }
+    }
+    m.bump(n, nontrivial);
+    m.note_add(&format!("f32_sweep_patterns_bits_{B}"), n);
+}
+
+// -------------------------------------------------------------------------- workloads
+
+fn f64_patterns(r: &mut Rng, out: &mut Vec<u64>) {
+    // sign x all 2048 exponents x mantissa patterns
+    let mants = [0u64, 1, 1 << 51, (1 << 51) + 1, (1 << 51) - 1, (1 << 52) - 1, (1 << 52) - 2, 0x000a_aaaa_aaaa_aaaa, 0x0005_5555_5555_5555];
+    for sign in [0u64, 1] {
+        for e in 0..2048u64 {
+            for &mt in &mants {
+                out.push((sign << 63) | (e << 52) | mt);
+            }
+            out.push((sign << 63) | (e << 52) | (r.u64() & ((1 << 52) - 1)));
+            out.push((sign << 63) | (e << 52) | (gen::alpha_limb(r) & ((1 << 52) - 1)));
+        }
+    }
+}
+
+fn workload(m: &mut Mon, bits: usize) {
+    let l = gen::nlimbs(bits);
+    // ---- float -> Uint, structured grid
+    let mut r = m.stream("c18.f64", bits);
+    let mut pats: Vec<u64> = vec![];
+    f64_patterns(&mut r, &mut pats);
+    for p in &pats {
+        if !m.keep() {
+            continue;
+        }
+        m.case("from_f64", bits, vec![Arg::N(u128::from(*p))]);
+    }
+    if !m.is_light() {
+        m.mark_exhaustive(format!("BITS={bits}: both signs x all 2048 f64 exponents x 11 mantissa patterns"));
+    }
+    let mut specials: Vec<f64> = vec![0.0, -0.0, f64::INFINITY, f64::NEG_INFINITY, f64::NAN, -f64::NAN, f64::MIN_POSITIVE, 5e-324, -5e-324,
+        0.49999999999999994, 0.5, 0.5000000000000001, 1.0, 1.4999999999999998, 1.5, 2.5, 3.5, -0.5, -0.49999999999999994, -1.0,
+        4503599627370495.5, 4503599627370496.0, 4503599627370497.0, 4503599627370498.0, 9007199254740991.0, 9007199254740992.0,
+        9007199254740993.0, 9007199254740994.0, f64::MAX, f64::MIN];
+    // 2^BITS - 1/2, 2^BITS - 1, 2^BITS and float neighbours
+    let p = (bits as f64).exp2();
+    if p.is_finite() {
+        for f in [p, f64::from_bits(p.to_bits() - 1), f64::from_bits(p.to_bits() + 1), p - 0.5, p - 1.0, p / 2.0, p * 2.0] {
+            specials.push(f);
+        }
+    }
+    for f in &specials {
+        m.case("from_f64", bits, vec![Arg::N(u128::from(f.to_bits()))]);
+        m.case("from_f32", bits, vec![Arg::N(u128::from((*f as f32).to_bits()))]);
+    }
+    // integers in [2^52, 2^53) odd and even; k + 1/2
+    for i in 0..m.iters(3000) {
+        if i % 512 == 0 && m.time_up() {
+            return;
+        }
+        let k = (1u64 << 52) | (r.u64() & ((1 << 52) - 1));
+        m.case("from_f64", bits, vec![Arg::N(u128::from((k as f64).to_bits()))]);
+        m.case("from_f64", bits, vec![Arg::N(u128::from(((k | 1) as f64).to_bits()))]);
+        let h = (r.u64() >> r.range(12, 63)) as f64 + 0.5;
+        m.case("from_f64", bits, vec![Arg::N(u128::from(h.to_bits()))]);
+        m.case("from_f64", bits, vec![Arg::N(u128::from(r.u64()))]);
+        m.case("from_f32", bits, vec![Arg::N(u128::from(r.u64() as u32))]);
+        let hf = (r.u64() >> r.range(41, 63)) as f32 + 0.5;
+        m.case("from_f32", bits, vec![Arg::N(u128::from(hf.to_bits()))]);
+    }
+    // f32: all exponents x mantissa patterns
+    for sign in [0u32, 1] {
+        for e in 0..256u32 {
+            for mt in [0u32, 1, 1 << 22, (1 << 22) + 1, (1 << 23) - 1, 0x2a_aaaa, r.u64() as u32 & 0x7f_ffff] {
+                m.case("from_f32", bits, vec![Arg::N(u128::from((sign << 31) | (e << 23) | mt))]);
+            }
+        }
+    }
+    if bits == 0 {
+        m.case("to_float", bits, vec![au(&[])]);
+        return;
+    }
+    // ---- Uint -> float
+    let mut vals = gen::boundary(bits);
+    let mut r = m.stream("c18.to", bits);
+    for _ in 0..m.iters(1500) {
+        // 53 / 54 / 24 / 25 / 64 / 65-bit heads with all-zero / all-one / random tails
+        let len = r.range(1, bits);
+        let head = *r.pick(&[24usize, 25, 53, 54, 55, 64, 65]);
+        let mut v = gen::with_bit_len(&mut r, len, bits);
+        if len > head {
+            let low = len - head;
+            let mode = r.below(4);
+            for j in 0..low {
+                match mode {
+                    0 => v[j / 64] &= !(1 << (j % 64)),
+                    1 => v[j / 64] |= 1 << (j % 64),
+                    _ => {}
+                }
+            }
+            if mode == 3 {
+                // exactly half an ulp: head bit below the mantissa set, rest zero
+                for j in 0..low {
+                    v[j / 64] &= !(1 << (j % 64));
+                }
+                let j = low - 1;
+                v[j / 64] |= 1 << (j % 64);
+            }
+        }
+        vals.push(v);
+    }
+    for k in [127usize, 128, 129, 1023, 1024, 1025] {
+        if k <= bits {
+            vals.push(gen::ones(k, bits));
+            // 2^k - 2^(k-25), 2^k - 2^(k-54): around the infinity rounding range
+            for d in [24usize, 25, 53, 54] {
+                if k > d {
+                    let v = big::p2(k) - big::p2(k - d);
+                    if big::fits(&v, bits) {
+                        vals.push(big::limbs(&v, l));
+                    }
+                    let v = big::p2(k) - big::p2(k - d) - 1u8;
+                    if big::fits(&v, bits) {
+                        vals.push(big::limbs(&v, l));
+                    }
+                }
+            }
+        }
+    }
+    vals.sort_by(|a, b| big::big(a).cmp(&big::big(b)));
+    vals.dedup();
+    for (i, v) in vals.iter().enumerate() {
+        if !m.keep() {
+            continue;
+        }
+        m.case("to_float", bits, vec![au(v)]);
+        if i + 1 < vals.len() {
+            m.case("to_float_mono", bits, vec![au(v), au(&vals[i + 1])]);
+        }
+        // adjacent integers
+        let bv = big::big(v);
+        if big::fits(&(&bv + 1u8), bits) {
+            m.case("to_float_mono", bits, vec![au(v), au(&big::limbs(&(&bv + 1u8), l))]);
+        }
+    }
+}
+
+fn main() {
+    let mut m = Mon::new("C18", dispatch);
+    if !m.replay_if_requested() {
+        if let Some(w) = m.cfg.extra.get("f32sweep").cloned() {
+            let (s, n) = (m.cfg.shard, m.cfg.nshards);
+            match w.as_str() {
+                "7" => sweep_f32::<7, 1>(&mut m, s, n),
+                "64" => sweep_f32::<64, 1>(&mut m, s, n),
+                "128" => sweep_f32::<128, 2>(&mut m, s, n),
+                "25" => sweep_f32::<25, 1>(&mut m, s, n),
+                _ => panic!("harness: f32sweep width not instantiated"),
+            }
+            if !m.is_light() {
+                m.mark_exhaustive(format!("all 2^32 f32 bit patterns through try_from at BITS={w} (this shard: its slice)"));
+            }
+        } else {
+            for &bits in WIDTHS {
+                if m.width_enabled(bits) {
+                    workload(&mut m, bits);
+                }
+            }
+        }
+    }
+    m.finish();
+}
